@@ -6,6 +6,8 @@ from props import runlib
 
 THEOREMS = ["RootSim.C05LP.run_exact", "RootSim.C05LP.rollback_exact", "RootSim.C01.lp_state_is_fold"]
 
+THEOREMS_D = ['RootSim.PrefixUnique.history_unique']
+
 
 def run(ctx):
     ctx.trusted += ["sequentially consistent execution under the token scheduler",
@@ -13,6 +15,7 @@ def run(ctx):
                     "so rollback_exact covers it; the digest compared at every rollback includes the four generator words"]
     ctx.assumptions += ["valid-model contract V1-V5"]
     runlib.lean_part(ctx, "RootSim.Props.C01", THEOREMS)
+    runlib.lean_part(ctx, "RootSim.Props.PrefixUnique", THEOREMS_D)
     if not runlib.build(ctx):
         return
     # metamorphic matrix: the SAME model+seed under different (threads, ckpt, period, schedule); all final states must be equal
